@@ -9,7 +9,7 @@ use crate::gen::*;
 use crate::json::J;
 use crate::prng::Rng;
 use crate::runner::*;
-use crate::scene::{opacity_byte, probe_source};
+use crate::scene::{opacity_byte, probe_source_checked, ProbeFail};
 use crate::util::*;
 use raqote::*;
 
@@ -32,6 +32,8 @@ pub struct ImgCase {
     pub src_t: Transform,
     pub ctm: Transform,
     pub alpha: f32,
+    /// multiplier on the ambiguity band (1 for this check's own transform families)
+    pub slack: f64,
 }
 
 pub struct ImgResult {
@@ -84,7 +86,7 @@ pub fn check_image(c: &ImgCase, pixels: &[u32], region: Option<(i32, i32, i32, i
             let e = if exact_m || (pure_translation && !c.bilinear && !near_top(xx) && !near_top(yy)) {
                 0.
             } else {
-                (px + py + 2) as f64 / 65536. + 4e-6 * (1. + xx.abs() + yy.abs() + mag * (px + py) as f64)
+                c.slack * ((px + py + 2) as f64 / 65536. + 8e-6 * (1. + xx.abs() + yy.abs() + mag * (px + py) as f64))
             };
             let obs = pixels[(py * c.w + px) as usize];
             let oc = ch(obs);
@@ -205,7 +207,8 @@ pub fn gen_case(rng: &mut Rng) -> ImgCase {
         7 => Transform::translation(rng.range(-200., 200.) as f32, rng.range(-200., 200.) as f32), // far beyond every edge
         _ => Transform::scale(0.5, 0.5).then_translate(euclid::vec2(0.25, 0.25)),
     };
-    let ctm = match rng.below(8) {
+    let ctm = match rng.below(9) {
+        8 => special_transform(rng, w as f64, h as f64),
         0 | 1 | 2 | 3 => Transform::identity(),
         4 => Transform::translation(rng.int(-6, 6) as f32, rng.int(-6, 6) as f32),
         5 => Transform::translation(axis(rng, 6), axis(rng, 6)),
@@ -221,13 +224,15 @@ pub fn gen_case(rng: &mut Rng) -> ImgCase {
     // a family of its own: the source transform cancels the current transform's linear part, so that
     // pixel -> image space is a pure translation although neither transform is one
     let (src_t, ctm) = if rng.chance(0.15) {
-        let s = |rng: &mut Rng| *rng.pick(&[0.5f32, 2.0, 4.0, 0.25, -1.0, 1.0]);
+        // (also strongly minifying and magnifying current transforms: the image stays the same size on the device)
+        let tiny = rng.chance(0.2);
+        let s = |rng: &mut Rng| if tiny { *rng.pick(&[1.0f32 / 4096., 1.0 / 8192., 1.0 / 16384., 2048., 1.0 / 1024.]) } else { *rng.pick(&[0.5f32, 2.0, 4.0, 0.25, -1.0, 1.0]) };
         let c = Transform::scale(s(rng), s(rng)).then_translate(euclid::vec2(rng.int(-4, 4) as f32, rng.int(-4, 4) as f32));
         (c.then_translate(euclid::vec2(axis(rng, 8), axis(rng, 8))), c)
     } else {
         (src_t, ctm)
     };
-    ImgCase { w, h, iw, ih, data, repeat: rng.chance(0.5), bilinear: rng.chance(0.5), src_t, ctm, alpha }
+    ImgCase { w, h, iw, ih, data, repeat: rng.chance(0.5), bilinear: rng.chance(0.5), src_t, ctm, alpha, slack: 1. }
 }
 
 pub fn case_desc(c: &ImgCase) -> J {
@@ -254,10 +259,15 @@ pub fn run(ctx: &Ctx) -> Outcome {
         let mut co = CaseOut::default();
         co.hash = crate::prng::hash_str(&format!("{:?}{}{}{:?}{:?}{}{:?}", (c.w, c.h, c.iw, c.ih), c.repeat, c.bilinear, c.src_t, c.ctm, c.alpha, c.data));
         let spec = SrcSpec::Image { w: c.iw, h: c.ih, data: c.data.clone(), repeat: c.repeat, bilinear: c.bilinear, transform: c.src_t };
-        let pixels = match probe_source(c.w, c.h, &c.ctm, &spec, c.alpha) {
-            Some(p) => p,
-            None => {
+        let pixels = match probe_source_checked(c.w, c.h, &c.ctm, &spec, c.alpha) {
+            Ok(p) => p,
+            Err(ProbeFail::OutOfRange) => {
                 st.add("cases_source_not_observable", 1);
+                return co;
+            }
+            Err(ProbeFail::NotCovered(x, y, cov)) => {
+                co.viol("C13", format!("filling a rectangle that contains the whole surface with 3 px to spare leaves pixel ({},{}) with coverage {} under the current transform {}", x, y, cov, transform_str(&c.ctm)));
+                co.desc = Some(case_desc(&c));
                 return co;
             }
         };
@@ -320,7 +330,7 @@ pub fn run(ctx: &Ctx) -> Outcome {
         let pixels = dt.get_data().to_vec();
         // pixels whose square lies inside the rectangle have full coverage: Src stores the shader output
         let (rx0, ry0, rx1, ry1) = ((x * k).ceil() as i32, (y * k).ceil() as i32, ((x + rw) * k).floor() as i32, ((y + rh) * k).floor() as i32);
-        let c = ImgCase { w, h, iw, ih, data: data.clone(), repeat: false, bilinear: true, src_t: Transform::translation(-x, -y).then_scale(iw as f32 / rw, ih as f32 / rh), ctm, alpha: 1. };
+        let c = ImgCase { w, h, iw, ih, data: data.clone(), repeat: false, bilinear: true, src_t: Transform::translation(-x, -y).then_scale(iw as f32 / rw, ih as f32 / rh), ctm, alpha: 1., slack: 1. };
         let res = check_image(&c, &pixels, Some((rx0, ry0, rx1, ry1)));
         st.add("px_asserted", res.asserted);
         st.add(if sized { "draw_image_with_size_at" } else { "draw_image_at" }, 1);
